@@ -31,7 +31,7 @@ def shards(tier):
 def gates(c, tier):
     out = []
     for k in ("outcome:messages", "outcome:wait", "outcome:ProtocolError", "part:random", "part:operator", "part:bytesub", "part:truncate", "part:valid-into-history", "part:large-bytewise",
-              "part:nest", "part:blank-diagnostic", "part:very-large-delivery", "part:custom-type-refuses", "part:long-non-ascii-diagnostic", "pending-output-before-input", "part:low-stack-headroom", "post-error-receive-refused", "post-error-send-refused", "response:notice-checked", "response:unbind-checked"):
+              "part:nest", "part:blank-diagnostic", "part:not-utf8-text", "part:very-large-delivery", "part:custom-type-refuses", "part:long-non-ascii-diagnostic", "pending-output-before-input", "part:low-stack-headroom", "post-error-receive-refused", "post-error-send-refused", "response:notice-checked", "response:unbind-checked"):
         if c.get(k, 0) == 0:
             out.append(f"never observed: {k}")
     cells = [k for k in c if k.startswith("cell:")]
@@ -342,6 +342,24 @@ def _run_shard(ctx: Ctx, acc: Acc):
                 for hist in ("fresh", "opened-ops", "binding"):
                     do("blank-diagnostic", role, hist, rfc4511.encode(("ExtendedResponse", 0, ((52, "", diag, None), NOTICE_OID, None), ())), [])
                     do("blank-diagnostic", role, hist, rfc4511.encode(("ExtendedResponse", 0, ((52, diag, diag, (diag,)), NOTICE_OID, diag.encode()), ())), [])
+    # (k) text fields that are not UTF-8 (a server answering in its code page) in messages whose text the session looks at or
+    # passes on: the notice of disconnection, final results, bind names, request names (round-18 change C05-25)
+    if ctx.shard % 4 == 2:
+        for bad in (b"\xff\xfe\x80\xc3", b"\xe9t\xe9!", b"\xc3\x28ab", b"\xed\xa0\x80."):
+            ph = "Z" * len(bad)
+            for hist in ("fresh", "opened-ops", "binding"):
+                for role in ROLES:
+                    for a in (("ExtendedResponse", 0, ((52, "", ph, None), NOTICE_OID, None), ()),
+                              ("ExtendedResponse", 0, ((52, ph, "", None), NOTICE_OID, None), ()),
+                              ("ExtendedResponse", 0, ((52, "", "x", (ph,)), NOTICE_OID, None), ()),
+                              ("ExtendedResponse", 1, ((0, "", ph, None), ph, None), ()),
+                              ("BindResponse", 1, ((49, ph, ph, None), None), ()),
+                              ("SearchResultDone", 1, ((32, "", ph, None),), ()),
+                              ("BindRequest", 1, (3, ph, ("simple", "pw")), ()),
+                              ("ExtendedRequest", 2, (ph, None), ())):
+                        data = rfc4511.encode(a)
+                        assert ph.encode() in data
+                        do("not-utf8-text", role, hist, data.replace(ph.encode(), bad), [])
     # (f) moderately nested input received with little stack headroom left by the application
     for j in range(24):
         if j % ctx.nshards != ctx.shard:
